@@ -132,6 +132,26 @@ fn same_entry(source: &Path, target: &Path, follow: bool) -> Result<bool> {
     Ok(false)
 }
 
+// Where `path` really is: symbolic links resolved, except (unless
+// links are dereferenced) a final one, which is copied as a link.
+fn real_path(path: &Path, follow: bool) -> Result<Option<PathBuf>> {
+    let is_link = path.symlink_metadata().map(|m| m.file_type().is_symlink()).unwrap_or(false);
+    let real = if is_link && !follow {
+        let parent = match path.parent() {
+            Some(p) if !p.as_os_str().is_empty() => p,
+            _ => Path::new("."),
+        };
+        parent.canonicalize().map(|p| p.join(path.file_name().unwrap_or_default()))
+    } else {
+        path.canonicalize()
+    };
+    match real {
+        Ok(p) => Ok(Some(p)),
+        Err(e) if e.kind() == ErrorKind::NotFound => Ok(None),
+        Err(e) => Err(e.into()),
+    }
+}
+
 fn opts_check(opts: &Opts) -> Result<()> {
     #[cfg(any(target_os = "linux", target_os = "android"))]
     if opts.reflink == Reflink::Never {
@@ -169,6 +189,7 @@ fn main() -> Result<()> {
     }
 
     // Sanity-check all sources up-front
+    let mut targets = Vec::with_capacity(sources.len());
     for source in &sources {
         info!("Copying source {:?} to {:?}", source, dest);
         if !source.try_exists()? {
@@ -200,8 +221,30 @@ fn main() -> Result<()> {
         // A directory cannot replace a file at the path it maps to
         // either; catch it here rather than after earlier sources
         // have already been copied.
-        if is_dir(source)? && lexists(&target_base)? && !is_dir(&target_base)? {
+        // (A symbolic link there, even one to a directory, is not a
+        // place for a directory either.)
+        if is_dir(source)? && lexists(&target_base)?
+            && (!is_dir(&target_base)? || target_base.symlink_metadata()?.file_type().is_symlink())
+        {
             return Err(XcpError::InvalidDestination("Cannot copy a directory to a file.").into());
+        }
+        targets.push(target_base);
+    }
+
+    // No source may lie inside a directory that this copy writes onto
+    // (its own target or another source's): it would be overwritten by
+    // the copy itself while it is being read.
+    for source in &sources {
+        let real_source = match real_path(source, opts.dereference)? {
+            Some(p) => p,
+            None => continue,
+        };
+        for target in &targets {
+            if let Some(real_target) = real_path(target, true)? {
+                if real_source != real_target && real_source.starts_with(&real_target) {
+                    return Err(XcpError::InvalidSource("A source lies inside a directory the copy writes onto").into());
+                }
+            }
         }
     }
 
